@@ -119,11 +119,15 @@ class Impl:
             return f"ok class={len(self.classes) - 1}"
         if k == "new":
             c, stop = int(w[1]), int(w[2])
+            if c >= len(self.classes):
+                return "bad-op"  # dangling reference (shrinker only); the driver says the same
             self.insts.append(self.classes[c](stop))
             self.cls_of.append(c)
             self.trace.append(("new", len(self.insts) - 1, self.levels[c], stop, self.snapshot()))
             return f"ok inst={len(self.insts) - 1} || {self.all()}"
         i = int(w[1])
+        if i >= len(self.insts):
+            return "bad-op"
         m = self.insts[i]
         before = self.snapshot()
         m.rec = []
